@@ -175,6 +175,54 @@ def _branch_conn(test):
     raise Untranslatable("unrecognised branch test %s" % ast.unparse(test)[:60])
 
 
+DICT_TABLES = ("ScheduleValues", "OrderValues", "LogRuleValues", "ActionContextValues")
+
+
+def global_dicts(repo):
+    """keys of the option dictionaries of globaling.py (insertion order)"""
+    tree = ast.parse(open(os.path.join(repo, "ioflo", "base", "globaling.py")).read())
+    out = {}
+    for n in tree.body:
+        if isinstance(n, ast.Assign) and len(n.targets) == 1 and isinstance(n.targets[0], ast.Name) \
+                and n.targets[0].id in DICT_TABLES:
+            _need(isinstance(n.value, ast.Dict), "%s is not a dict literal" % n.targets[0].id)
+            keys = []
+            for k in n.value.keys:
+                _need(isinstance(k, ast.Constant) and isinstance(k.value, str), "non-constant key")
+                keys.append(k.value)
+            out[n.targets[0].id] = keys
+    for d in DICT_TABLES:
+        _need(d in out, "%s not found in globaling.py" % d)
+    return out
+
+
+def validity(stmts, dicts):
+    """content check of a ONE-TOKEN clause branch:
+       ("VOneOf", words) | ("VOneOfCap", words) | ("VName",) | ("VNum",) | ("VAny",)"""
+    src = [ast.unparse(s) for s in stmts]
+    if any("Convert2Num(tokens[index])" in x for x in src):
+        return ("VNum",)            # numeric literal (C17's converters): not modelled here
+    cap = any(".capitalize()" in x for x in src)
+    found = []
+    for s in stmts:
+        if isinstance(s, ast.If) and any(isinstance(x, ast.Raise) for x in s.body) and not s.orelse:
+            t = s.test
+            if isinstance(t, ast.Compare) and len(t.ops) == 1 and isinstance(t.ops[0], ast.NotIn) \
+                    and isinstance(t.left, ast.Name):
+                c = t.comparators[0]
+                if isinstance(c, ast.Name):
+                    _need(c.id in dicts, "membership test against unknown table %s" % c.id)
+                    found.append(("VOneOfCap" if cap else "VOneOf", dicts[c.id]))
+                else:
+                    found.append(("VOneOfCap" if cap else "VOneOf", _const_list(c, {})))
+            else:
+                raise Untranslatable("unrecognised validity test: %s" % ast.unparse(t)[:60])
+        elif isinstance(s, ast.Expr) and isinstance(s.value, ast.Call) and ast.unparse(s.value.func) == "self.verifyName":
+            found.append(("VName",))
+    _need(len(found) <= 1, "more than one content check in a one-token branch")
+    return found[0] if found else ("VAny",)
+
+
 def option_loop(fn):
     loops = [n for n in ast.walk(fn) if _is_while_tokens(n) and n.body
              and ast.unparse(n.body[0]) == "connective = tokens[index]"]
@@ -182,7 +230,7 @@ def option_loop(fn):
     return loops[0]
 
 
-def verb_table(verb, fn):
+def verb_table(verb, fn, dicts=None):
     loop = option_loop(fn)
     body = list(loop.body[1:])
     strict = True
@@ -199,12 +247,15 @@ def verb_table(verb, fn):
     body = body[1:]
     _need(len(body) == 1 and isinstance(body[0], ast.If), "%s: option loop is not one if-chain" % verb)
     clauses = []
+    valids = []
     node = body[0]
     while True:
         conns = _branch_conn(node.test)
         k = kind_of(consumers(node.body), ast.unparse(node))
+        v = validity(node.body, dicts or {}) if k == ("KFix", 1) else ("VAny",)
         for c in conns:
             clauses.append((c, k))
+            valids.append((c, v))
         if len(node.orelse) == 1 and isinstance(node.orelse[0], ast.If):
             node = node.orelse[0]
             continue
@@ -236,7 +287,7 @@ def verb_table(verb, fn):
             head = ("HParts", cons[0][1])
         else:
             raise Untranslatable("%s: unrecognised head %r" % (verb, cons))
-    return {"verb": verb, "head": head, "strict": strict, "clauses": clauses}
+    return {"verb": verb, "head": head, "strict": strict, "clauses": clauses, "valid": valids}
 
 
 def extract(repo):
@@ -251,10 +302,22 @@ def extract(repo):
     cls = [n for n in tree.body if isinstance(n, ast.ClassDef) and n.name == "Builder"]
     _need(len(cls) == 1, "class Builder not found")
     fns = {f.name: f for f in cls[0].body if isinstance(f, ast.FunctionDef)}
+    dicts = global_dicts(repo)
     verbs = []
     for verb, fname in VERBS:
         _need(fname in fns, "%s not found" % fname)
-        verbs.append(verb_table(verb, fns[fname]))
+        verbs.append(verb_table(verb, fns[fname], dicts))
+    # verbs outside the 'set of optional clauses' claim: one optional clause / fixed-order grammar
+    bid = option_loop(fns["buildBid"])
+    chain = [x for x in bid.body if isinstance(x, ast.If)]
+    _need(len(chain) == 1 and _branch_conn(chain[0].test) == ["at"]
+          and not (len(chain[0].orelse) == 1 and isinstance(chain[0].orelse[0], ast.If)),
+          "buildBid: expected the single optional clause 'at'")
+    for nm in ("makeDoneNeed", "makeStatusNeed"):
+        loops = [n for n in ast.walk(fns[nm]) if _is_while_tokens(n)]
+        _need(not loops, "%s: now has a token loop (was a fixed-order grammar)" % nm)
+    vn = ast.unparse(fns["verifyName"])
+    _need("not REO_IdentPub.match(name) or name in Reserved" in vn, "verifyName changed")
     # keyword constants of the helper parsers the hand model mirrors
     rel = ast.unparse(fns["parseRelation"])
     for frag in ("connective == 'of'", "relation not in ['root', 'me', 'framer', 'frame', 'actor']",
@@ -269,7 +332,7 @@ def extract(repo):
     dr = ast.unparse(fns["parseDirect"])
     for frag in ("index == len(tokens) - 1", "value in Reserved", "field in Reserved"):
         _need(frag in dr, "parseDirect changed: %s" % frag)
-    return {"reserved": env["Reserved"], "verbs": verbs}
+    return {"reserved": env["Reserved"], "verbs": verbs, "bid_connectives": ["at"]}
 
 
 def cstr(s):
@@ -303,6 +366,16 @@ def render(t):
         L.append("Definition %s : verb := mkverb %s (%s) %s [%s]." % (
             nm, cstr(v["verb"]), hs, "true" if v["strict"] else "false", cl))
     L.append("Definition gen_verbs : list verb := [%s]." % "; ".join(names))
+
+    def cv(v):
+        if v[0] in ("VOneOf", "VOneOfCap"):
+            return "%s %s" % (v[0], cwords(v[1]))
+        return v[0]
+    for v, nm in zip(t["verbs"], names):
+        L.append("Definition valid_%s : list (list Z * vkind) := [%s]." % (
+            nm[5:], "; ".join("(%s (* %s *), %s)" % (cstr(c), c, cv(k)) for c, k in v["valid"])))
+    L.append("(* buildBid has the single optional clause 'at'; makeDoneNeed / makeStatusNeed have no clause loop *)")
+    L.append("Definition gen_bid_connectives : list (list Z) := %s." % cwords(t["bid_connectives"]))
     return "\n".join(L) + "\n"
 
 
